@@ -33,6 +33,8 @@ REQUIRED_CLASSES = ["nontrivial", "empties=25", "empties=26", "exception_at_writ
 QUICK_SHARDS = 4
 
 LETTERS = "ABCDEFGHIJKLMNOPQRSTUVWXYZ"
+ERROR_TEXTS = ["injected", "TX Buffer overrun", "RX Buffer overrun", "Missing parameter(s)", "Unknown command 'ZZ:5A5A'",
+               "Parameter outside allowed range", "Need comma next, found: 'x'", "buffer overrun", "12,ab", "100%", ""]
 
 
 # ------------------------------------------------------------------ (1) framing reference
@@ -67,6 +69,8 @@ def framing_body(ctx, case):
     line = reply_line(kind, name, data)
     obj = em.ebb3_motion.EBBMotionWrap()
     port = FakePort()
+    if case.get("port_timeout", 1.0) != 1.0:
+        port.timeout = case["port_timeout"]         # the count of empty reads is fixed, whatever each read's timeout
     obj.port = port
 
     class Dev:
@@ -191,8 +195,13 @@ def framing_cases(draw):
     if draw(st.integers(0, 3)) == 0:
         where = draw(st.one_of(st.just(0), st.integers(1, 27), st.just(min(empties + 1, 26))))
         exc = [where, draw(st.sampled_from(ALL_EXC))]
-    return {"method": draw(st.sampled_from(["command", "query"])), "request": request,
+    case = {"method": draw(st.sampled_from(["command", "query"])), "request": request,
             "empties": empties, "reply": kind, "data": data, "exc": exc}
+    if draw(st.integers(0, 4)) == 0:
+        case["port_timeout"] = draw(st.sampled_from([0.5, 2.0, 0.25, 5.0, 0.04, None, 0]))
+    if kind == "errline":
+        case["data"] = draw(st.sampled_from(ERROR_TEXTS))
+    return case
 
 
 def framing_grid():
@@ -201,6 +210,10 @@ def framing_grid():
     for method, req, kind, e in itertools.product(["command", "query"], shapes, kinds, range(0, 28)):
         data = "ZZ,37" if kind == "wrongname" else "12,ab"
         yield {"method": method, "request": req, "empties": e, "reply": kind, "data": data, "exc": None}
+    for method, req, e, timeout in itertools.product(["command", "query"], ["QL,3", "V"], [12, 13, 24, 25, 26, 27],
+                                                     [0.5, 2.0, None]):
+        yield {"method": method, "request": req, "empties": e, "reply": "data", "data": "1", "exc": None,
+               "port_timeout": timeout}
     for method, req, where, excname in itertools.product(["command", "query"], ["QL,3", "V", "RB", "R", "BL"],
                                                          [0, 1, 2, 26], ALL_EXC):
         yield {"method": method, "request": req, "empties": 5, "reply": "data", "data": "1",
